@@ -24,10 +24,10 @@ ASSUMPTIONS = [
     'aligned blocks are half-open [start,end) as pysam defines them: a read overlaps a feature iff one of its aligned bases lies in the closed feature interval',
 ]
 COMPONENTS = {
-    'real': ['singlecellmultiomics.features.FeatureContainer (addFeature, sort, findFeaturesAt all optim variants, findFeaturesBetween, findFeaturesAtPysamAlign)', 'functools.lru_cache shared by all instances', 'pysam.AlignedSegment'],
+    'real': ['FeatureAnnotatedMolecule.annotate (method 0 blocks / method 1 per base) on base Fragment reads', 'singlecellmultiomics.features.FeatureContainer (addFeature, sort, findFeaturesAt all optim variants, findFeaturesBetween, findFeaturesAtPysamAlign)', 'functools.lru_cache shared by all instances', 'pysam.AlignedSegment'],
     'stub': [],
 }
-REQUIRED_PROBES = ['repeat_query_across_reindex', 'lru_churn_evicted', 'nonempty_result', 'read_query', 'nested_hit']
+REQUIRED_PROBES = ['molecule_annotation', 'repeat_query_across_reindex', 'lru_churn_evicted', 'nonempty_result', 'read_query', 'nested_hit']
 
 
 def plan(tier):
@@ -129,8 +129,11 @@ def generate(seed, tier):
             elif x < 0.88:
                 b = pos + weighted(w, [(0, 1), (w.randint(1, max(2, span // 6)), 5)])
                 q = ['between', c, chrom, pos, b, strand]
-            else:
+            elif x < 0.95:
                 q = ['read', c, chrom, max(0, pos), _cigar(w), strand, w.choice([0, 1])]
+            else:
+                # annotation of a molecule (1..2 reads) built on the same queries: FeatureAnnotatedMolecule.annotate(method 0: blocks, 1: per base)
+                q = ['molecule', c, chrom, max(0, pos), [_cigar(w) for _ in range(w.choice([1, 2]))], None, w.choice([0, 1])]
             ops.append(q)
             issued.append(q)
         # churn the shared LRU through the other container
@@ -205,7 +208,7 @@ def execute(case):
             log.add('sort', c, 'implicit')
 
     def check(opi, op, got, want):
-        got = {(op[2],) + tuple(g[:4]) for g in got}
+        got = {tuple(g) for g in got} if op[0] == 'molecule' else {(op[2],) + tuple(g[:4]) for g in got}
         log.add('q', opi, op[0], sorted(map(repr, got)))
         if want:
             probe('nonempty_result')
@@ -226,7 +229,7 @@ def execute(case):
         kind, c = op[0], op[1]
         if kind == 'add':
             _, _, chrom, a, b, name, strand = op
-            cont[c].addFeature(chrom, a, b, name, strand=strand, data=None)
+            cont[c].addFeature(chrom, a, b, name, strand=strand, data=name)
             model[c].append((chrom, a, b, name, strand))
             dirty[c] = True
             log.add('add', c, chrom, a, b, name, strand)
@@ -236,7 +239,7 @@ def execute(case):
             log.add('sort', c)
         elif kind == 'churn':
             if not model[c]:
-                cont[c].addFeature('chr1', 0, 10, 'churn', strand=None, data=None)
+                cont[c].addFeature('chr1', 0, 10, 'churn', strand=None, data='churn')
                 model[c].append(('chr1', 0, 10, 'churn', None))
                 dirty[c] = True
             ensure_sorted(c)
@@ -267,6 +270,35 @@ def execute(case):
                     _, _, chrom, a, b, strand = op
                     got = cont[c].findFeaturesBetween(chrom, a, b, strand)
                     want = _model_between(model[c], chrom, a, b, strand)
+                elif kind == 'molecule':
+                    from singlecellmultiomics.molecule import FeatureAnnotatedMolecule
+                    from singlecellmultiomics.fragment import Fragment
+                    _, _, chrom, start, cigars, strand, method = op
+                    reads = []
+                    want = set()
+                    off = 0
+                    for ci_, cigar in enumerate(cigars):
+                        seg = pysam.AlignedSegment(header)
+                        seg.query_name = 'm'
+                        seg.query_sequence = 'A' * sum(l for o, l in cigar if o in 'MIS')
+                        seg.flag = 0
+                        seg.reference_id = header.get_tid(chrom)
+                        seg.reference_start = start + off
+                        seg.mapping_quality = 60
+                        seg.cigartuples = [(CIGAR_OPS[o], l) for o, l in cigar]
+                        seg.set_tag('SM', 'cell')
+                        seg.set_tag('RX', 'ACG')
+                        reads.append(seg)
+                        for (a_, b_) in _blocks(start + off, cigar)[0]:
+                            want |= _model_between(model[c], chrom, a_, b_ - 1, None)
+                        off += 7
+                    mol = FeatureAnnotatedMolecule(Fragment([reads[0], None]), features=cont[c], stranded=None)
+                    for extra_read in reads[1:]:
+                        mol._add_fragment(Fragment([extra_read, None]))
+                    mol.annotate(method=method)
+                    got_names = set(mol.hits.keys())
+                    got = []
+                    probe('molecule_annotation')
                 else:
                     _, _, chrom, start, cigar, strand, method = op
                     seg = pysam.AlignedSegment(header)
@@ -284,6 +316,8 @@ def execute(case):
                     for (a, b) in blocks:
                         want |= _model_between(model[c], chrom, a, b - 1, strand)
                     probe('read_query')
+                if kind == 'molecule':
+                    got = {f for f in model[c] if f[3] in got_names and f[0] == chrom}
                 check(opi, op, got, want)
             except Exception as e:  # a lookup must answer, not raise
                 log.add('q-raise', opi, type(e).__name__)
